@@ -101,7 +101,13 @@ class SymCtx:
         if isinstance(lo, int) and isinstance(hi, int):
             return self.And(*[fn(k) for k in range(lo, hi)])
         k = fresh_int("q")
-        body = fn(k)
+        # the range of the bound variable is a path fact while the body is built (feasibility questions inside the body
+        # - e.g. which branch of a conditional value can be meant - may depend on it); removed again afterwards
+        self.fr.pc.append(z3.And(k >= zint(lo), k < zint(hi)))
+        try:
+            body = fn(k)
+        finally:
+            self.fr.pc.pop()
         if isinstance(body, bool):
             if body:
                 return True
